@@ -102,11 +102,22 @@ func (c *ctx) fecCase(maxSize, maxCount, maxRed int) {
 		for i := range x {
 			x[i] = data[i] ^ b[i]
 		}
-		ra, e1 := fragmentation.Encode(append([]byte{}, data...), size, red)
-		rb, e2 := fragmentation.Encode(b, size, red)
-		rx, e3 := fragmentation.Encode(x, size, red)
-		if e1 == nil && e2 == nil && e3 == nil {
+		var ra, rb, rx [][]byte
+		res, _ := observeFast(func() error {
+			var err error
+			if ra, err = fragmentation.Encode(append([]byte{}, data...), size, red); err != nil {
+				return err
+			}
+			if rb, err = fragmentation.Encode(b, size, red); err != nil {
+				return err
+			}
+			rx, err = fragmentation.Encode(x, size, red)
+			return err
+		})
+		if res == "" {
 			c.emit(M{"ev": "feclin", "size": size, "red": red, "ra": rowsVal(ra), "rb": rowsVal(rb), "rx": rowsVal(rx)})
+		} else if res != "error" { // a panic / hang of the encoder is an observation too
+			c.emit(M{"ev": "fec", "size": size, "red": red, "data": bs(data), "err": res, "intact": true, "rows": []interface{}{}})
 		}
 	}
 }
